@@ -267,21 +267,47 @@ func runC15(c *fw.Ctx, idx int) fw.Result {
 			}
 		case 3: // wrap
 			dir := filepath.Join(c.Tmp, fmt.Sprintf("c15w-%d", idx))
-			base, err := run.ToMultiAlign(sf.Text, -1, -1, -1, false, 1)
-			pbase, perr := run.ToPairAlignDir(sf.Text, refFasta, dir, -1, -1, -1, false, false, 1)
+			// wrapping composes with the other layout options: with or without --pad, with or
+			// without a window (both bounds, one bound, width 1)
+			ws, we := -1, -1
+			wpad := r.Chance(0.5)
+			switch r.Intn(4) {
+			case 0:
+				ws = r.Range(1, L)
+				we = r.Range(ws, L)
+			case 1:
+				ws = r.Range(1, L)
+				we = ws
+			case 2:
+				if r.Chance(0.5) {
+					ws = r.Range(1, L)
+				} else {
+					we = r.Range(1, L)
+				}
+			}
+			base, err := run.ToMultiAlign(sf.Text, -1, ws, we, wpad, 1)
+			pbase, perr := run.ToPairAlignDir(sf.Text, refFasta, dir, -1, ws, we, false, false, 1)
 			res.Evals += 2
 			if err != nil || perr != nil {
 				res.Fail("error-on-valid-input", fmt.Sprint(err, perr), files, nil)
 				return res
 			}
 			bi, bs := rowsOf(base)
-			for _, w := range []int{1, 2, 3, 59, 60, 61, L - 1, L, L + 1, 1000000} {
+			wlo, whi := 1, L
+			if ws != -1 {
+				wlo = ws
+			}
+			if we != -1 {
+				whi = we
+			}
+			ww := whi - wlo + 1
+			for _, w := range []int{1, 2, 3, 59, 60, 61, L - 1, L, L + 1, 1000000, ww - 1, ww, ww + 1, (ww + L) / 2} {
 				if w < 1 {
 					continue
 				}
-				got, err := run.ToMultiAlign(sf.Text, w, -1, -1, false, pickThreads(r))
+				got, err := run.ToMultiAlign(sf.Text, w, ws, we, wpad, pickThreads(r))
 				res.Evals++
-				argv := []string{"sam", "toMultiAlign", "--wrap", fmt.Sprint(w)}
+				argv := []string{"sam", "toMultiAlign", "--wrap", fmt.Sprint(w), fmt.Sprintf("--start=%d", ws), fmt.Sprintf("--end=%d", we), fmt.Sprintf("--pad=%v", wpad)}
 				if err != nil {
 					res.Fail("wrap:error", err.Error(), files, argv)
 					continue
@@ -316,7 +342,7 @@ func runC15(c *fw.Ctx, idx int) fw.Result {
 				if !okk {
 					res.Fail("wrap-toma", fmt.Sprintf("--wrap %d does not merely re-break the sequence lines", w), map[string]string{"in.sam": sf.Text, "unwrapped.fasta": base, "observed.fasta": got}, argv)
 				}
-				pgot, perr := run.ToPairAlignDir(sf.Text, refFasta, dir, w, -1, -1, false, false, 1)
+				pgot, perr := run.ToPairAlignDir(sf.Text, refFasta, dir, w, ws, we, false, false, 1)
 				res.Evals++
 				if perr != nil {
 					res.Fail("wrap:error", perr.Error(), files, argv)
